@@ -149,6 +149,8 @@ def mixer_sessions(res, b, rng, tier):
         else:
             if r[0] != str(int(ok1)) or r[1] != str(int(ok2)):
                 probs.append("init/reseed reported %s/%s, the system source answered %d/%d" % (r[0], r[1], ok1, ok2))
+            if "OVERLAP" in r[3]:
+                probs.append("a 64-bit draw after three 32-bit draws repeats a word already handed out")
             if r[2] != "2":
                 probs.append("%s system requests instead of 2" % r[2])
             if again != r:
